@@ -142,6 +142,7 @@ type Hist struct {
 	cfgFor  string
 	outcome uint64
 	failed  bool
+	inLib   bool // a call into the library under test is in progress (panics elsewhere are harness bugs)
 
 	States   map[uint64]struct{}
 	Outcomes map[uint64]struct{}
@@ -299,6 +300,11 @@ func RunParserHist(h *Hist, orc *Oracle) {
 		if e, ok := r.(error); ok && strings.HasPrefix(e.Error(), "harness:") {
 			panic(r)
 		}
+		if !h.inLib {
+			// the panic did not happen inside a call into the library: a bug of this harness, never a finding
+			panic(fmt.Errorf("harness: panic outside the library: %v", r))
+		}
+		h.inLib = false
 		h.St.Pruned++
 		if orc.Panic != nil {
 			orc.Panic(h, r)
@@ -319,8 +325,14 @@ func runParserHist(h *Hist, orc *Oracle) {
 	var p lz.Parser
 	var err error
 	if h.NewParserFn != nil {
+		h.inLib = true // the supplied constructor drives a prior history on the real parser
 		p = h.NewParserFn(cfg)
-	} else if p, err = cfg.NewParser(); err != nil {
+		h.inLib = false
+	} else if h.inLib = true; true {
+		p, err = cfg.NewParser()
+		h.inLib = false
+	}
+	if err != nil {
 		panic(fmt.Errorf("harness: NewParser(%s): %v", h.PC.JSON, err))
 	}
 	h.P = p
@@ -369,7 +381,9 @@ func runParserHist(h *Hist, orc *Oracle) {
 				arg[:cap(arg)][i] = 0xA5 ^ byte(i) // poisoned margin
 			}
 		}
+		h.inLib = true
 		err := p.Reset(arg)
+		h.inLib = false
 		track()
 		h.logOp(opReset, len(data), extraCap)
 		h.record(opReset, len(data), err, nil)
@@ -391,10 +405,14 @@ func runParserHist(h *Hist, orc *Oracle) {
 	doParse := func(nilBlk bool, flags int) (n int, err error) {
 		ev := ParseEv{Flags: flags, Nil: nilBlk, PosBefore: h.Pos, OffBefore: h.Off, Unparsed: len(h.Stream) - h.Pos, Blk: blk}
 		if nilBlk {
+			h.inLib = true
 			n, err = p.Parse(nil, flags)
+			h.inLib = false
 			ev.Blk = nil
 		} else {
+			h.inLib = true
 			n, err = p.Parse(blk, flags)
+			h.inLib = false
 		}
 		track()
 		ev.N, ev.Err = n, err
@@ -434,7 +452,9 @@ func runParserHist(h *Hist, orc *Oracle) {
 
 	shrink := func() {
 		h.Last.BufLen = h.W()
+		h.inLib = true
 		delta := p.Shrink()
+		h.inLib = false
 		h.Last.N, h.Last.Err = delta, nil
 		track()
 		h.logOp(opShrink, 0, delta)
@@ -457,7 +477,7 @@ outer:
 		// ---- feed ----
 		if fed < len(in) {
 			rem := in[fed:]
-			var alts [12]int
+			var alts [16]int
 			na := 0
 			add := func(op int) { alts[na] = op; na++ }
 			add(0) // Write(rem)
@@ -481,6 +501,7 @@ outer:
 			if h.Menu.Restart {
 				add(10) // Reset(input[:1]) with 7 spare bytes: the stream starts again
 				add(11) // Reset(input[:min(B,len)]) without spare capacity: the stream starts again
+				add(12) // Reset(input[:1]) with 16 spare bytes: more than BufferSize+7 for small buffers, less than a 12-byte input
 			}
 			op := alts[c.Choose(na)]
 			switch {
@@ -490,7 +511,9 @@ outer:
 					q = rem[:op]
 				}
 				h.Last.BufLen = len(h.Stream) - h.Off
+				h.inLib = true
 				n, err := p.Write(q)
+				h.inLib = false
 				h.Last.Arg, h.Last.N, h.Last.Err = len(q), n, err
 				track()
 				h.logOp(opWrite, len(q), n)
@@ -521,7 +544,9 @@ outer:
 					r.withEOF = true
 				}
 				h.Last.BufLen = len(h.Stream) - h.Off
+				h.inLib = true
 				n64, err := p.ReadFrom(r)
+				h.inLib = false
 				h.Last.Arg, h.Last.N, h.Last.Given, h.Last.Err = len(rem), int(n64), r.given, err
 				track()
 				h.logOp(opReadPlain+op-4, 0, int(n64))
@@ -549,6 +574,8 @@ outer:
 				extra := 7
 				if op == 11 {
 					q, extra = in[:min(B, len(in))], 0
+				} else if op == 12 {
+					extra = 16
 				}
 				if !reset(q, extra) {
 					h.St.Pruned++
@@ -599,8 +626,8 @@ outer:
 					add(3)
 				}
 			}
-			if h.Menu.StopEarly && fed < len(in) && room > 0 && unparsed > 0 {
-				add(4)
+			if h.Menu.StopEarly && fed < len(in) && unparsed > 0 && (room > 0 || h.Menu.Restart) {
+				add(4) // with the capacity layers also when the buffer is full: the next Write must then return ErrFullBuffer
 			}
 			if h.Menu.ShrinkDev && unparsed > 0 && h.W() > h.BC.ShrinkSize {
 				add(5)
